@@ -18,7 +18,8 @@ SPACINGS = (1, 1, 40, 119, 120, 121, 170, 280, 999, 1000, 1120, 2280, 5000, 5120
 
 def _config(rng):
     a = rng.choice(LATS)
-    return {"place_latency": a[0], "cancel_latency": a[1], "update_latency": a[2], "replace_latency": a[3]}
+    # (async placement changes how the order is acknowledged, not when the exchange acts on it)
+    return {"place_latency": a[0], "cancel_latency": a[1], "update_latency": a[2], "replace_latency": a[3], "async_place_orders": rng.random() < 0.35}
 
 
 MARKET = {"spacing_ms": SPACINGS, "p_inplay": 0.7, "inplay_bet_delay": (0, 1, 5, 12), "pre_bet_delay": (0, 0, 1, 3), "n_pre": (5, 14), "n_inplay": (2, 10), "p_suspend_reopen": 0.4, "depth": (1, 4)}
@@ -40,6 +41,27 @@ def run(desc):
     ov["config"] = _config
     desc["overrides"] = ov
     case, snaps = _sim.build(desc)
+    if case.get("event_processing") and len(snaps) > 1:
+        # some requests on one market are made while an update of a sibling market of the event is being processed
+        from .. import simgen
+
+        rng = simgen.mk_rng(desc["seed"], desc["idx"], 71)
+        for st in case["strategies"]:
+            for a in st["actions"]:
+                if a["op"] not in ("place", "cancel", "update", "replace") or rng.random() > 0.35:
+                    continue
+                ma = snaps[a["m"]]
+                if a["at"] >= len(ma):
+                    continue
+                lo = ma[a["at"]]["pt"]
+                hi = ma[a["at"] + 1]["pt"] if a["at"] + 1 < len(ma) else None
+                others = [m_ for m_ in snaps if m_ != a["m"]]
+                rng.shuffle(others)
+                for mb in others:
+                    js = [j for j, s_ in enumerate(snaps[mb]) if s_["pt"] > lo and (hi is None or s_["pt"] < hi) and s_["status"] != "CLOSED"]
+                    if js:
+                        a["via"] = [mb, js[0]]
+                        break
     tr = simrun.run_case(case)
     out = O.Out(PROPERTY)
     O.abort_violation(tr, out)
